@@ -51,8 +51,8 @@ private theorem fieldLoopC_toOption {α : Type} (get : String → Option α) (re
     | error e' => rfl
     | ok r => exact absurd ((fieldLoopC_ok_iff get rec fs r).2 hL) (by simp [hC])
 
-private theorem mapE_equiv {reg : Reg} {recL : Ty → Lit → R} {recJ : Ty → JV → R}
-    (hrec : ∀ ty j l, AstOfJson reg ty j l → (recL ty l).toOption = (recJ ty j).toOption) {t : Ty} :
+private theorem mapE_equiv {reg : Reg} {S : String → Prop} {recL : Ty → Lit → R} {recJ : Ty → JV → R}
+    (hrec : ∀ ty j l, S ty.base → AstOfJson reg ty j l → (recL ty l).toOption = (recJ ty j).toOption) {t : Ty} (hS : S t.base) :
     ∀ (js : List JV) (ls : List Lit), AstOfJsonL reg t js ls →
       (mapE (recL t) ls).toOption = (mapE (recJ t) js).toOption := by
   intro js
@@ -62,7 +62,7 @@ private theorem mapE_equiv {reg : Reg} {recL : Ty → Lit → R} {recJ : Ty → 
     intro ls h
     cases h with
     | cons h1 h2 =>
-      have hh := hrec _ _ _ h1
+      have hh := hrec _ _ _ hS h1
       have ht := ih _ h2
       simp only [mapE]
       cases hL : recL t _ <;> cases hJ : recJ t j <;> simp [hL, hJ, Except.toOption] at hh ⊢
@@ -106,9 +106,10 @@ private theorem allKnown_equiv {reg : Reg} {fs fs' : List InField} :
       simp only [allKnown, List.all_cons] at this ⊢
       rw [this]
 
-private theorem fieldLoop_equiv {reg : Reg} {recL : Ty → Lit → R} {recJ : Ty → JV → R}
-    (hrec : ∀ ty j l, AstOfJson reg ty j l → (recL ty l).toOption = (recJ ty j).toOption)
-    {all : List InField} {kvs : List (String × JV)} {lkvs : List (String × Lit)} (hF : AstOfJsonF reg all kvs lkvs) :
+private theorem fieldLoop_equiv {reg : Reg} {S : String → Prop} {recL : Ty → Lit → R} {recJ : Ty → JV → R}
+    (hrec : ∀ ty j l, S ty.base → AstOfJson reg ty j l → (recL ty l).toOption = (recJ ty j).toOption)
+    {all : List InField} (hall : ∀ f, f ∈ all → S f.type.base)
+    {kvs : List (String × JV)} {lkvs : List (String × Lit)} (hF : AstOfJsonF reg all kvs lkvs) :
     ∀ (fs : List InField), (∀ f, f ∈ fs → f ∈ all) →
       (fieldLoop (fun k => lookupLast k lkvs) recL fs).toOption = (fieldLoop (fun k => lookupLast k kvs) recJ fs).toOption := by
   intro fs
@@ -131,7 +132,7 @@ private theorem fieldLoop_equiv {reg : Reg} {recL : Ty → Lit → R} {recJ : Ty
         cases f.type.isNonNull <;> simp [ih']
     | inr hs =>
       obtain ⟨j, l, e1, e2, e3⟩ := hs
-      have hh := hrec _ _ _ e3
+      have hh := hrec _ _ _ (hall f (hsub f List.mem_cons_self)) e3
       simp only [fieldLoop, e1, e2]
       cases hL : recL f.type l <;> cases hJ : recJ f.type j <;> simp [hL, hJ, Except.toOption] at hh ⊢
       subst hh
@@ -140,9 +141,10 @@ private theorem fieldLoop_equiv {reg : Reg} {recL : Ty → Lit → R} {recJ : Ty
         simp [Except.toOption]
 
 /-- bodies of the two functions agree on a literal spelling (type not non-null) -/
-private theorem core_equiv {vars : Option (List (String × PV))} {reg : Reg} (hagree : CustomAgree reg) {recL : Ty → Lit → R} {recJ : Ty → JV → R}
-    (hrec : ∀ ty j l, AstOfJson reg ty j l → (recL ty l).toOption = (recJ ty j).toOption)
-    {t : Ty} {j : JV} {l : Lit} (h : AstOfJson reg t j l) (hnn : t.isNonNull = false) :
+private theorem core_equiv {vars : Option (List (String × PV))} {reg : Reg} {S : String → Prop} (hclosed : InputClosed reg S)
+    (hagree : CustomAgreeOn reg S) {recL : Ty → Lit → R} {recJ : Ty → JV → R}
+    (hrec : ∀ ty j l, S ty.base → AstOfJson reg ty j l → (recL ty l).toOption = (recJ ty j).toOption)
+    {t : Ty} {j : JV} {l : Lit} (hS : S t.base) (h : AstOfJson reg t j l) (hnn : t.isNonNull = false) :
     (vfaCore vars reg recL t l).toOption = (coerceCore reg recJ t j).toOption := by
   have hadmI : ∀ k, admits .int (.int k) = true := fun k => by simp only [admits, kindName, litKind]; decide
   have hadmFI : ∀ k, admits .float (.int k) = true := fun k => by simp only [admits, kindName, litKind]; decide
@@ -169,11 +171,12 @@ private theorem core_equiv {vars : Option (List (String × PV))} {reg : Reg} (ha
   | idStr hk => exact congrArg _ (by simp [vfaCore, coerceCore, Lit.isNull, JV.isNull, hk, isScalarLit, parseLiteral, hadmIS, parseId, pyStr])
   | idInt hk => exact congrArg _ (by simp [vfaCore, coerceCore, Lit.isNull, JV.isNull, hk, isScalarLit, parseLiteral, hadmII, parseId, pyStr])
   | custom hk hs =>
-    have := hagree _ (vars.getD []) _ _ hk hs
-    cases hs <;> simpa [vfaCore, coerceCore, Lit.isNull, JV.isNull, hk, isScalarLit, litAdmitted] using this
+    have := hagree _ (vars.getD []) _ _ (show S _ from hS) hk hs
+    cases hs <;> simpa [vfaCore, coerceCore, Lit.isNull, JV.isNull, hk, isScalarLit, litAdmitted, Ty.base] using this
   | enum hk => exact congrArg _ (by simp [vfaCore, coerceCore, Lit.isNull, JV.isNull, hk])
   | list hL =>
-    have hm := (mapE_equiv hrec _ _ hL).trans (mapEC_toOption _ _).symm
+    rename_i t' js' ls'
+    have hm := (mapE_equiv hrec (t := t') hS _ _ hL).trans (mapEC_toOption _ _).symm
     simp only [vfaCore, coerceCore, Lit.isNull, JV.isNull, coerceListValue, Bool.false_eq_true, if_false]
     revert hm
     cases mapE (recL _) _ <;> cases mapEC (recJ _) _ <;> simp [Except.toOption]
@@ -184,35 +187,30 @@ private theorem core_equiv {vars : Option (List (String × PV))} {reg : Reg} (ha
     cases hj : j.isNull with
     | true => simp [vfaCore, coerceCore, hnull, hj]
     | false =>
-      have e := hrec _ _ _ h'
+      have e := hrec t' _ _ hS h'
       revert e
       cases hL : recL t' l <;> cases hJ : recJ t' j <;> intro e <;> simp [Except.toOption] at e <;>
         cases l <;> cases j <;>
           simp_all [vfaCore, coerceCore, coerceListValue, Lit.isNull, JV.isNull, Except.toOption]
   | obj hk hF =>
-    have hm := (fieldLoop_equiv hrec hF _ (fun f hf => hf)).trans (fieldLoopC_toOption _ _ _).symm
+    have hm := (fieldLoop_equiv hrec (fun f hf => hclosed _ _ f hS hk hf) hF _ (fun f hf => hf)).trans (fieldLoopC_toOption _ _ _).symm
     simp only [vfaCore, coerceCore, Lit.isNull, JV.isNull, hk, extractInputObject, coerceInputObject, allKnown_equiv _ _ hF,
       Bool.false_eq_true, if_false]
     revert hm
     cases fieldLoop _ recL _ <;> cases fieldLoopC _ recJ _ <;> simp [Except.toOption]
     intro h; subst h; rfl
 
-/-- **literal_variable_equiv.** For every registry, every type expression (any nesting, recursive input objects),
-    every JSON value `j` of the natural kind for the type and its literal spelling `l`, and every fuel, relative to
-    custom scalars whose own two parsers agree (`CustomAgree`: the scalar author's obligation, nothing else is assumed):
-    `value_from_ast(l, ty)` and `coerce_value(j, ty)` have the same outcome — the SAME value, or both raise
-    (`toOption` forgets only which exception: `_coerce_input_object` / `_coerce_list_value` collect errors and go on,
-    `value_from_ast` stops at the first). With `variable_sound` / `literal_sound` and the way
-    `coerce_argument_values` stores either result under the argument's python name, a resolver cannot tell whether a
-    value was written inline or sent through a variable of the same type. -/
-theorem literal_variable_equiv (reg : Reg) (hagree : CustomAgree reg) (vars : Option (List (String × PV))) :
-    ∀ (fuel : Nat) (ty : Ty) (j : JV) (l : Lit), AstOfJson reg ty j l →
+/-- **literal_variable_equiv_on.** The general form: `S` is any set of type names closed under "field of an input object"
+    that contains the base of `ty`; the custom scalars' agreement is needed ONLY for the names in `S`. -/
+theorem literal_variable_equiv_on (reg : Reg) (S : String → Prop) (hclosed : InputClosed reg S) (hagree : CustomAgreeOn reg S)
+    (vars : Option (List (String × PV))) :
+    ∀ (fuel : Nat) (ty : Ty) (j : JV) (l : Lit), S ty.base → AstOfJson reg ty j l →
       (valueFromAst reg vars fuel ty l).toOption = (coerceValue reg fuel ty j).toOption := by
   intro fuel
   induction fuel with
-  | zero => intro ty j l _; rfl
+  | zero => intro ty j l _ _; rfl
   | succ fuel ih =>
-    intro ty j l h
+    intro ty j l hS h
     obtain ⟨hnull, hnv, _⟩ := spelling_shape _ _ _ h
     have hv : valueFromAst reg vars (fuel + 1) ty l =
         if ty.isNonNull && l.isNull then .error .coercion else vfaCore vars reg (valueFromAst reg vars fuel) (stripNN ty) l := by
@@ -224,13 +222,30 @@ theorem literal_variable_equiv (reg : Reg) (hagree : CustomAgree reg) (vars : Op
     | false =>
       simp only [Bool.false_eq_true, if_false]
       cases ty with
-      | named n => exact core_equiv hagree ih h rfl
-      | list t => exact core_equiv hagree ih h rfl
+      | named n => exact core_equiv hclosed hagree ih hS h rfl
+      | list t => exact core_equiv hclosed hagree ih hS h rfl
       | nonNull t =>
         simp only [stripNN]
         cases h with
         | null => simp [Ty.isNonNull, JV.isNull] at hc
-        | nonNull hnn h' => exact core_equiv hagree ih h' hnn
+        | nonNull hnn h' => exact core_equiv hclosed hagree ih hS h' hnn
+
+theorem customAgreeOn_of_customAgree {reg : Reg} (h : CustomAgree reg) (S : String → Prop) : CustomAgreeOn reg S :=
+  fun n vs j l _ hk hs => h n vs j l hk hs
+
+/-- **literal_variable_equiv.** For every registry, every type expression (any nesting, recursive input objects),
+    every JSON value `j` of the natural kind for the type and its literal spelling `l`, and every fuel, relative to
+    custom scalars whose own two parsers agree (`CustomAgree`: the scalar author's obligation, nothing else is assumed):
+    `value_from_ast(l, ty)` and `coerce_value(j, ty)` have the same outcome — the SAME value, or both raise
+    (`toOption` forgets only which exception: `_coerce_input_object` / `_coerce_list_value` collect errors and go on,
+    `value_from_ast` stops at the first). With `variable_sound` / `literal_sound` and the way
+    `coerce_argument_values` stores either result under the argument's python name, a resolver cannot tell whether a
+    value was written inline or sent through a variable of the same type. -/
+theorem literal_variable_equiv (reg : Reg) (hagree : CustomAgree reg) (vars : Option (List (String × PV))) :
+    ∀ (fuel : Nat) (ty : Ty) (j : JV) (l : Lit), AstOfJson reg ty j l →
+      (valueFromAst reg vars fuel ty l).toOption = (coerceValue reg fuel ty j).toOption :=
+  fun fuel ty j l h =>
+    literal_variable_equiv_on reg (fun _ => True) (fun _ _ _ _ _ _ => trivial) (customAgreeOn_of_customAgree hagree _) vars fuel ty j l trivial h
 
 /-- in particular: whenever the variable route accepts, the literal route yields the identical value, and vice versa -/
 theorem literal_variable_same_value (reg : Reg) (hagree : CustomAgree reg) (vars : Option (List (String × PV))) (fuel : Nat) (ty : Ty) (j : JV) (l : Lit)
